@@ -446,6 +446,32 @@ def check_wire(ctx, FB, exp):
             allk = sorted(u[2]["values"].d)
             if len(s3.out) != 1 + 4 * len(u[2]["header"]) + 4 * len(allk):
                 ctx.violate("um.dirty", key + "|fully", f"{exp} Update{kind}: after mark_fully_dirty not every present word is written")
+            # a field that is set for the first time after mark_fully_dirty (its dirty bit may already be 1 in an allocated block):
+            # it must become present (header bit) and travel on the wire like any other
+            import copy
+            impl = f"{P}impls::<impl {ty}>::"
+            allocated = 32 * len(u[2]["header"])
+            tried = 0
+            for sp in sorted(p for p in F.paths("fn") if p.startswith(impl + "set_")):
+                sfn = F.fn(sp)
+                if sfn is None or len(sfn["inputs"]) != 2 or sfn["inputs"][1] not in ("i32", "f32", "u32"):
+                    continue
+                uc = copy.deepcopy(u)
+                before = set(uc[2]["values"].d)
+                mm = Mini(FB, "wow_world_messages")
+                mm.call_fn(sp, [uc, Env(FB).value(sfn["inputs"][1])])
+                new = sorted(set(uc[2]["values"].d) - before)
+                if not new or new[0] >= allocated:
+                    continue
+                tried += 1
+                missing = [k for k in new if not bit(uc[2]["header"], k)]
+                if missing:
+                    ctx.violate("um.dirty", key + "|set-after-fully-dirty", f"{exp} Update{kind}: mark_fully_dirty followed by {sp.split('::')[-1]} (a field never set before, word {new[0]} in an already allocated block) "
+                                f"stores the value but leaves header bit(s) {missing} clear: the field is absent from the written mask and values although its getter returns it", sfn["file"], sfn["line"])
+                    break
+                wire_form(ctx, mm, uc, exp, kind, P, ty, key + "|after-fully-dirty", what=f" after mark_fully_dirty + {sp.split('::')[-1]}")
+                if tried >= 4:
+                    break
             n += 1
         except (Unsupported, Panic) as e:
             ctx.violate("um.wire", key + "|shape", f"{exp} Update{kind}: wire-form interpretation failed — review ({e})")
